@@ -111,7 +111,8 @@ partial def tplOfSExp (names : List String) : GE.Codec.SExp → Option (Tpl TE)
       | .list [.str n, v] => (teOfSExp names v).map fun te => (n, te)
       | _ => none
     some (.elem tag attrs (← tplsOfSExps names ch))
-  | .list (.atom "block" :: ch) => (tplsOfSExps names ch).map .block
+  | .list (.atom "block" :: ch) => (tplsOfSExps names ch).map (.block false)
+  | .list (.atom "include" :: ch) => (tplsOfSExps [] ch).map (.block true)
   | .list (.atom "cond" :: brs) => (branchesOfSExps names brs).map .cond
   | .list (.atom "for" :: v :: .str item :: .str index :: ch) => do
     some (.loop (← teOfSExp names v) (← tplsOfSExps (names ++ [item, index]) ch))
@@ -331,7 +332,7 @@ def step (fs : List String) : String :=
         | _ => none
       match tplsOfSExps [] ns, jOfSExp d0x, steps.mapM stepOf with
       | some ts, some D0, some Ds =>
-        let t : GE.TagSem.Tpl GE.TagSem.TE := .block ts
+        let t : GE.TagSem.Tpl GE.TagSem.TE := .block false ts
         let adv := (if names.isEmpty then [] else names.splitOn ",").filter fun f => GE.TagSem.advertised GE.TagSem.jsonSem f t
         let n0 := GE.TagSem.create GE.TagSem.jsonSem 0 D0 [] t
         let (_, _, outs) := Ds.foldl (fun (st : Nat × GE.TagSem.Node GE.TagSem.J × List String) (wd : Char × String × GE.TagSem.J) =>
